@@ -19,6 +19,14 @@ func c02Tasks(tier string) []Task {
 	for _, a := range [][4]int64{{9, 0, 0, 0}, {9, 1, 0, 0}, {9, 1, 1, 0}, {9, 1, 2, 0}, {10, 0, 0, 0}, {10, 1, 0, 0}, {10, 1, 1, 0}} {
 		ts = append(ts, Task{Pkg: dm, Func: "VerifC02HighLevel", Args: a[:], Timeout: 300, Note: "Base-256 run of 248 / 504 characters + free character + tail"})
 	}
+	// X12 with an incomplete triplet pending when a free character arrives
+	x12 := [][4]int64{{11, 1, 4, 0}, {11, 0, 4, 0}}
+	if tier == "thorough" {
+		x12 = append(x12, [4]int64{12, 1, 4, 0}, [4]int64{11, 1, 0, 0})
+	}
+	for _, a := range x12 {
+		ts = append(ts, Task{Pkg: dm, Func: "VerifC02HighLevel", Args: a[:], Timeout: 300, Note: "X12 prefix with 2 / 1 characters of a triplet pending + free character + X12 tail"})
+	}
 	if tier == "thorough" {
 		ts = append(ts, Task{Pkg: dm, Func: "VerifC02HighLevel", Args: ints(0, 2, 0, 0), Timeout: 600, MaxPaths: 400000})
 		ts = append(ts, Task{Pkg: dm, Func: "VerifC02HighLevel", Args: ints(1, 2, 0, 0), Timeout: 600, MaxPaths: 400000})
